@@ -227,7 +227,15 @@ impl RaAdvService {
                 autonomous: prefix.autonomous,
                 valid: prefix.valid,
                 preferred: prefix.preferred,
-                prefix: prefix.addr,
+                /* RFC4861 4.6.2: the bits after the prefix length MUST be zero. */
+                prefix: {
+                    use crate::config::PrefixOps as _;
+                    crate::config::Prefix6 {
+                        addr: prefix.addr,
+                        prefixlen: prefix.prefixlen,
+                    }
+                    .network()
+                },
             }));
         }
 
